@@ -22,11 +22,19 @@ AfterRaise(s, e) ==
 (* other edits of C01's list: put_docstr / put_line_comment / par().  They are  *)
 (* edits (Sync, RootIdentity, atomic on raise) that leave the structure alone   *)
 (* (comments, parentheses) or change only the docstring statement of `body`.    *)
+(* put_docstr(None) on a body that holds nothing but the docstring leaves an    *)
+(* empty block: the statement-deletion analogue of BelowMin (d06: "invalid AST *)
+(* nodes ... allowed with the understanding that valid data will be replaced"). *)
+MiscBelowMin(s, e) ==
+  /\ e.op = "put_docstr" /\ e.arg = "None"
+  /\ Kind(NodeAt(s.liveS, e.path)) # "Module"
+  /\ Len(FieldSeq(NodeAt(s.liveS, e.path), "body")) <= 1
+
 MiscClauses(s, e) ==
   LET t == e.post IN
   IF e.outcome = "ok"
   THEN { Cl("RootIdentity", t.rootObj = s.rootObj), Cl("RegistryQuiescent", t.reg) }
-       \cup (IF Sync(s) THEN {Cl("Sync", Sync(t))} ELSE {})
+       \cup (IF Sync(s) /\ ~MiscBelowMin(s, e) THEN {Cl("Sync", Sync(t))} ELSE {})
        \cup (IF e.op \in {"put_line_comment", "par", "unpar"} THEN {Cl("NothingElse", t.liveS = s.liveS)}
              ELSE IF e.op = "put_docstr" THEN {Cl("NothingElse", OnlyChangedAt(s.liveS, t.liveS, e.path, {"body"}))}
              ELSE {})
